@@ -496,6 +496,7 @@ def make_case(prog, case):
                 ex.env['monitor'].errors.clear()
             before = st.snapshot()
             nwrites_before = len(st.log)
+            ex.env['first_step'] = st.log[-1][0] + 1 if st.log else 0
             opts = backup_options(ex, H, B, C, case.get('owner', True))
             pol.armed = True
             crashed, r = False, None
@@ -516,7 +517,7 @@ def make_case(prog, case):
             if out[0] == 'panic':
                 r0, m = ex.E.check()
                 pol, st = ex.env.get('policy'), ex.env.get('store')
-                res['bad'].append({'kind': 'panic', 'msg': str(out[1])[:300], 'where': out[1].where, 'case': case,
+                res['bad'].append({'kind': 'panic', 'msg': str(out[1])[:300], 'where': out[1].where, 'case': case, 'first_step': ex.env.get('first_step', 0),
                                    'model': model_values(m), 'fired': pol.fired if pol else None,
                                    'log': [(i, v, p) for i, a, v, p, act in st.log] if st else []})
                 return
@@ -528,19 +529,25 @@ def make_case(prog, case):
                 res['cov:' + ev] = res.get('cov:' + ev, 0) + 1
             if problems:
                 r0, m = ex.E.check()
-                res['bad'].append({'kind': 'problem', 'problems': problems[:6], 'case': case, 'fired': d['pol'].fired,
+                res['bad'].append({'kind': 'problem', 'problems': problems[:6], 'case': case, 'fired': d['pol'].fired, 'first_step': first_step(d),
                                    'result': None if d['r'] is None else d['r'][0], 'model': model_values(m),
                                    'log': [(i, v, p) for i, a, v, p, act in d['st'].log]})
             elif len(res['samples']) < 1 and (d['pol'].fired or mode == 'none') and not case.get('sym_meta'):
                 # one clean path per case is kept with its whole storage trace: it is replayed natively and the two
                 # traces are compared (conformance of the model with the implementation)
                 r0, m = ex.E.check()
-                res['samples'].append({'case': case, 'model': model_values(m), 'fired': d['pol'].fired,
+                res['samples'].append({'case': case, 'model': model_values(m), 'fired': d['pol'].fired, 'first_step': first_step(d),
                                        'result': 'crashed' if d['crashed'] else d['r'][0] if d['r'] else None,
                                        'log': [(i, v, p) for i, a, v, p, act in d['st'].log],
                                        'storage_trace': [(v, p) for i, a, v, p, act in d['st'].log[d['log0']:d['log1']]]})
         return h, on_path, res
     return mk_
+
+
+def first_step(d):
+    """Step index of the first storage operation of the run under test (operations of a prior backup come before it)."""
+    log = d['st'].log
+    return log[d['log0']][0] if d['log0'] < len(log) else (log[-1][0] + 1 if log else 0)
 
 
 def coverage_events(ex, d):
